@@ -1,4 +1,5 @@
 # C01 - no datagram, however malformed, can crash the collector.
+import json
 import os
 import re
 
@@ -74,6 +75,41 @@ def concurrent_stage(ctx, thorough):
             ctx.traces_validated += 1
 
 
+def side_by_side(ctx, thorough):
+    """NetFlow v5 and sFlow have no cache, but their decoders run in many workers at once all the same: 8 goroutines released
+    together decode and encode a few hundred datagrams each - for v5 every datagram from an exporter address nobody has used
+    before - under the race detector.  A Go map or another shared structure written on that path aborts the process."""
+    import gen_sflow
+    from props import c08
+    gs = gen_sflow.Gen(ctx.rng)
+    sets = {"v5": ("netflow/v5", ["netflow5/decode_verif_test.go", "netflow5/side_verif_test.go"],
+                   [c08.rand_dgram(ctx.rng) for _ in range(600 if thorough else 250)]),
+            "sflow": ("sflow", ["sflow/decode_verif_test.go", "sflow/side_verif_test.go"],
+                      [gs.datagram()[0] for _ in range(600 if thorough else 250)])}
+    for proto, (pkg, files, dgs) in sets.items():
+        drv = ctx.go_build_test(pkg, files, race=True)
+        d = ctx.subdir("c01side_" + proto)
+        f = os.path.join(d, "dgs.json")
+        with open(f, "w") as fh:
+            json.dump(dgs, fh)
+        rc, log, to = ctx.go_run(drv, "TestVerifSideBySide", timeout=600, env={"VERIF_SIDE": f})
+        ctx.count([proto, "side-by-side", ctx.seed])
+        if to:
+            raise vlib.Infra("side-by-side stage timed out:\n" + log[-1500:])
+        what = concurrent_map_misuse(log)
+        if not what and rc != 0:
+            m = re.search(r"^(panic: [^\n]*|fatal error: [^\n]*)", log, re.M)
+            what = m.group(1) if m else None
+            if not what and "DATA RACE" not in log:
+                raise vlib.Infra("side-by-side driver failed:\n" + log[-1500:])
+        if what:
+            ctx.violation("%s: workers decoding side by side (8 at once, datagrams from exporters not seen before) can kill the process: %s"
+                          % (codec.P[proto]["name"] if proto in codec.P else {"v5": "NetFlow v5", "sflow": "sFlow"}[proto], what),
+                          {"run": "TestVerifSideBySide", "log": log[-2500:]}, key=proto + ":side-by-side")
+        else:
+            ctx.traces_validated += 1
+
+
 def check(ctx):
     thorough = ctx.tier == "thorough"
     ctx.rule = ("TLC enumerates datagram histories at the grammar boundaries (spec/*Fuzz.tla: every 16-bit field and every octet "
@@ -88,6 +124,7 @@ def check(ctx):
     ctx.assumptions += ["universal quantification over all byte strings is explored, not enumerated",
                         "a watchdog 'hang' is judged by C02, not here"]
     concurrent_stage(ctx, thorough)
+    side_by_side(ctx, thorough)
     n = 200000 if thorough else 20000
     for proto, pairs in fuzzrun.all_protocols(ctx, thorough, n, False, 1):
         kept = []
